@@ -49,18 +49,18 @@ def takeDigits : List Nat → List Nat × List Nat
 
 def digitsVal (d : List Nat) : Nat := d.foldl (fun a c => a * 10 + (c - 48)) 0
 
-/-- sign? digits [. digits] [e sign? digits]; no leading zeros; at least one digit before the point -/
+/-- sign? (digits [. digits?] | . digits) [e sign? digits]; no leading zeros; `1.` and `.5` are
+accepted like `Digit::StringToNumber` does (a lone `.` is not) -/
 def readLit (s : List Nat) : Option Lit :=
   let (neg, s) := match s with
     | 45 :: r => (true, r) | 43 :: r => (false, r) | _ => (false, s)
   let (ip, s) := takeDigits s
-  if ip.isEmpty then none
-  else if ip.length > 1 && ip.head? == some 48 then none
+  if ip.length > 1 && ip.head? == some 48 then none
   else
     let (fp, s, hasDot) := match s with
       | 46 :: r => let (f, r') := takeDigits r; (f, r', true)
       | _ => ([], s, false)
-    if hasDot && fp.isEmpty then none
+    if ip.isEmpty && fp.isEmpty then none
     else
       match s with
       | [] => some ⟨neg, digitsVal (ip ++ fp), fp.length, false, 0, hasDot⟩
@@ -100,8 +100,30 @@ def litNumRat (l : Lit) : Option (Num Rat) :=
     let v : Rat := if e ≥ 0 then m * ((10 ^ e.toNat : Nat) : Rat) else m / ((10 ^ e.natAbs : Nat) : Rat)
     some (.real (if l.neg then -v else v))
 
-def readNumFloat (s : List Nat) : Option (Num Float) := (readLit s).bind litNumFloat
-def readNumRat (s : List Nat) : Option (Num Rat) := (readLit s).bind litNumRat
+/-- `[+-]0x<hex digits>` / `0X…`: `Digit::StringToNumber` hands these to `HexStringToNumber` and
+answers Natural (the sign is ignored, no digit at all is 0, the value wraps at 64 bits) -/
+def readHex (s : List Nat) : Option Nat :=
+  let s := match s with
+    | 45 :: r => r | 43 :: r => r | _ => s
+  match s with
+  | 48 :: x :: rest =>
+    if x == 120 || x == 88 then
+      rest.foldlM (fun acc c =>
+        if 48 ≤ c ∧ c ≤ 57 then some ((acc * 16 + (c - 48)) % W64)
+        else if 65 ≤ c ∧ c ≤ 70 then some ((acc * 16 + (c - 55)) % W64)
+        else if 97 ≤ c ∧ c ≤ 102 then some ((acc * 16 + (c - 87)) % W64)
+        else none) 0
+    else none
+  | _ => none
+
+def readNumFloat (s : List Nat) : Option (Num Float) :=
+  match readHex s with
+  | some n => some (.nat n)
+  | none => (readLit s).bind litNumFloat
+def readNumRat (s : List Nat) : Option (Num Rat) :=
+  match readHex s with
+  | some n => some (.nat n)
+  | none => (readLit s).bind litNumRat
 
 /-! ### variables -/
 
